@@ -764,10 +764,18 @@ def explore_paths(fn, kind, observer, on_path=None):
 def two_clause_programs(g, inner_size=2):
     """try: raise E / except E2: <A> / except E: <B> for all small bodies A, B that contain a with-block: the exit of a
     with-block in a LATER except clause, next to an earlier clause that holds blocks of its own"""
-    small = [b for b in programs(g, inner_size, 2) if has(b, WITH_KINDS)]
+    small = [b for b in programs(g, 2, 2) if has(b, WITH_KINDS)]
     for a in small:
         for b in small:
             yield (("tryexc2", (("raise",),), a, b),)
+    if inner_size > 2:
+        # larger bodies on one side at a time
+        small_set = set(small)
+        bigger = [b for b in programs(g, inner_size, 2) if has(b, WITH_KINDS) and b not in small_set]
+        for big in bigger:
+            for sm in small:
+                yield (("tryexc2", (("raise",),), big, sm),)
+                yield (("tryexc2", (("raise",),), sm, big),)
 
 
 def expected_contexts(rt, withs):
